@@ -84,6 +84,27 @@ pub fn run() {
                     evdir = Some(dir);
                     "ok".into()
                 }
+                ["evstartcfg", d] => {
+                    // the cap as the agent itself reads it: common::config (proxy-agent.json next to the executable)
+                    let dir = base.join(d);
+                    std::fs::create_dir_all(&dir).unwrap();
+                    let d2 = dir.clone();
+                    let cap = crate::common::config::get_max_event_file_count();
+                    tokio::spawn(async move {
+                        event_logger::start(d2, std::time::Duration::from_millis(15), cap, |_s: String| async {}).await;
+                    });
+                    evdir = Some(dir);
+                    cap.to_string()
+                }
+                ["evpretmp", k] => {
+                    // what a run killed between creating and renaming an event file leaves behind
+                    let dir = evdir.clone().unwrap();
+                    for _ in 0..k.parse::<u64>().unwrap() {
+                        seq += 1;
+                        std::fs::write(dir.join(format!("{:019}.tmp", seq)), b"[").unwrap();
+                    }
+                    count_files(&dir).to_string()
+                }
                 ["evpre", k] => {
                     let dir = evdir.clone().unwrap();
                     for _ in 0..k.parse::<u64>().unwrap() {
@@ -101,6 +122,15 @@ pub fn run() {
                     tokio::time::sleep(std::time::Duration::from_millis(90)).await;
                     // file count, and how long the burst took to enqueue (a burst longer than the 15 ms flush interval spans several flushes)
                     format!("{} {}", count_files(&evdir.clone().unwrap()), ms)
+                }
+                ["evstop", k] => {
+                    // shutdown with events still queued: enqueue k events and signal stop in the same flush interval
+                    for i in 0..k.parse::<u64>().unwrap() {
+                        event_logger::write_event(proxy_agent_shared::logger::LoggerLevel::Info, format!("late event {}", i), "m", "mod", "none");
+                    }
+                    event_logger::stop();
+                    tokio::time::sleep(std::time::Duration::from_millis(150)).await;
+                    count_files(&evdir.clone().unwrap()).to_string()
                 }
                 ["evrm", k] => {
                     let dir = evdir.clone().unwrap();
